@@ -16,6 +16,7 @@ PRE = ("From Coq Require Import PrimFloat.\nFrom EsVerif.Common Require Import B
        "From EsVerif.C05 Require Import Model Spec Exec.\n")
 
 MAXOUT = 400000        # larger outputs are not converted to lists (reported as an error outcome)
+CASE_TIMEOUT = 20      # seconds per call of the real code (a mutated tree may loop over 1e8 bins in python)
 MAXBIN = 3000          # generated cases are kept below this many bins (lists in Coq)
 
 
@@ -374,12 +375,20 @@ class Hist(Entry):
                 raise OverflowError("hist/rev with %d/%d elements: far beyond what the generated cases ask for"
                                     % (h.size, rev.size))
             return {"hist": [int(v) for v in h], "rev": [int(v) for v in rev], "obs": obs}
+        import signal
+
+        def _alarm(signum, frame):
+            raise TimeoutError("no answer within %d s (the generated cases need milliseconds)" % CASE_TIMEOUT)
+        old = signal.signal(signal.SIGALRM, _alarm)
+        signal.alarm(CASE_TIMEOUT)
         try:
             with warnings.catch_warnings():
                 warnings.simplefilter("ignore")
                 with np.errstate(all="ignore"):
                     out = core.guarded(f)
         finally:
+            signal.alarm(0)
+            signal.signal(signal.SIGALRM, old)
             U.have_chist = True
         if out[0] == "err" and out[2].startswith("ZeroDivisionError"):
             out = ("err", "EOther", out[2])
